@@ -525,15 +525,31 @@ Definition sff_flat
 Definition oz (o : option Z) : list Z :=
   match o with None => [0] | Some v => [1; v] end.
 
+(* rectify_metadata, channel count: "added if not present" = number of
+   fl1_max/fl2_max/fl3_max features stored in the file; a value carried over
+   from the source is never touched *)
+Definition stored_name {A} (calls : list (Z * Z * list A)) (n : Z) : bool :=
+  existsb (fun cl => fst (fst cl) =? n) calls.
+Definition count_fl {A} (flnames : list Z) (calls : list (Z * Z * list A)) : Z :=
+  len (filter (stored_name calls) flnames).
+Definition rectify_chcount (src : option Z) (nfl : Z) : option Z :=
+  match src with
+  | Some c => Some c
+  | None => if 0 <? nfl then Some nfl else None
+  end.
+
 (* full case = (export case, (features given?, innate names),
-               (logs, tables, basins), (runid, hashid, sample, logs, tables));
+               (logs, tables, basins), (runid, hashid, sample, logs, tables),
+               (source channel count, names of fl1_max..fl3_max));
    rnd is fixed to 7: the harness only observes whether a suffix is there *)
 Definition export_full_flat
   (case : ((Z * Z * Z * Z) * list (Z * Z * list (Z * Z * Z * Z * list Z))
            * list bool * (Z * Z) * list Z)
           * (Z * list Z) * (Z * Z * Z)
-          * (list Z * list Z * Z * list Z * list Z)) : list Z :=
-  let '(ec, (given, innate), (logs, tables, basins), (rid, hid, smp, lgs, tbs)) := case in
+          * (list Z * list Z * Z * list Z * list Z)
+          * (list Z * list Z)) : list Z :=
+  let '(ec, (given, innate), (logs, tables, basins), (rid, hid, smp, lgs, tbs),
+        (chsrc, flnames)) := case in
   let '(hd, fts, filt, fl, req) := ec in
   let '(cfg, h5, n, cnt) := hd in
   let '(filtered, skip) := fl in
@@ -556,4 +572,5 @@ Definition export_full_flat
       | Some (i, s) => [1] ++ oz i ++ [match s with None => 0 | Some _ => 1 end]
       end
       ++ [om_sample om; len (om_logs om); len (om_tables om)]
+      ++ oz (rectify_chcount (o2 chsrc) (count_fl flnames calls))
   end.
